@@ -356,6 +356,9 @@ def pipe_drop_families(pools=(1,)):
         out.append(make('P_dropstream_idle_dropobj_p%d' % p, 1, p, 0, [P(1, 1), DS(1), DROP(1)], pipes=1))
         out.append(make('P_dropstream_vs_send_p%d' % p, 1, p, 0, [P(1, 1), DS(1)], [SEND(1, 1), SEND(1, 2)], pipes=1))
         out.append(make('P_bp_dropstream_p%d' % p, 1, p, 0, [P(1, 1), DEPTH(1, 1), SEND(1, 1), SEND(1, 2), DS(1), DROP(1)], pipes=1))
+        # the stream is dropped while the producer is idle (registered with a silent input) and the buffer is full
+        out.append(make('P_depth1_full_idle_dropstream_p%d' % p, 1, p, 0, [P(1, 1), DEPTH(1, 1), SEND(1, 1), DS(1), DROP(1)], pipes=1))
+        out.append(make('P_depth2_full_idle_dropstream_p%d' % p, 1, p, 0, [P(1, 1), DEPTH(1, 2), BARRIER(), SEND(1, 1), SEND(1, 2)], [BARRIER(), DS(1)], pipes=1))
         out.append(make('P_send_next_dropstream_p%d' % p, 1, p, 0, [P(1, 1), SEND(1, 1), NEXT(1), SEND(1, 2), DS(1)], [S(1)], pipes=1))
         out.append(make('P_procgate_dropstream_p%d' % p, 1, p, 1, [P(1, 1, g=1), SEND(1, 1), DS(1)], [FIRE(1)], pipes=1))
     return out
